@@ -1855,7 +1855,12 @@ func (f *fn) tupleCall(st *ast.AssignStmt) (string, bool) {
 						sz := f.usePath(base+".size", ft["size"], c)
 						f.state[di] = true
 						f.tmp++
-						return fmt.Sprintf("let (%s, r%d) := (Trans.%s %s %s %s %s)", di, f.tmp, r.t.lean, f.expr(sel.X), en, di, sz), true
+						byName := map[string]string{"c_enabled": en, "c_dict": di, "c_size": sz}
+						args := []string{f.expr(sel.X)}
+						for _, prm := range r.params[r.nDeclared:] {
+							args = append(args, byName[prm.name])
+						}
+						return fmt.Sprintf("let (%s, r%d) := (Trans.%s %s)", di, f.tmp, r.t.lean, strings.Join(args, " ")), true
 					}
 				}
 			}
@@ -2353,6 +2358,10 @@ func (tr *translator) translate(key string) *result {
 		}
 	}
 	r.nDeclared = len(r.params)
+	// field paths and inputs in a canonical (alphabetical) order: the signature must not depend on which of them the code
+	// happens to read first
+	sort.Strings(f.pathOrd)
+	sort.Strings(f.oracleOrd)
 	for _, pp := range f.pathOrd {
 		r.params = append(r.params, param{leanIdent(pp), f.pathSet[pp]})
 		r.pathParams = append(r.pathParams, pp)
